@@ -539,3 +539,22 @@ Proof.
     exfalso. apply (Hmid k0). left; reflexivity. }
   rewrite E in Hv. injection Hv; intros <-. apply installed_last_rename; assumption.
 Qed.
+
+(** a Store whose write / sync / close / rename reports an error has no effect on any key: every
+    name holds what it held, the temp file is gone, the call returns an error - in any state,
+    whatever the other threads do *)
+Theorem failed_store_no_effect s t s' : step s (LFail t) = Some s' ->
+  (forall k, named_value s' k = named_value s k) /\
+  (exists k v, thr s' t = WErr k v) /\
+  (forall tmp, (exists k v i off, thr s t = WOpen k v tmp i off) \/ (exists k v i, thr s t = WSynced k v tmp i) \/
+               (exists k v i, thr s t = WClosed k v tmp i) -> dir s' (NTemp tmp) = None) /\
+  data s' = data s /\ log s' = log s.
+Proof.
+  cbn [step]. intros H.
+  destruct (thr s t) eqn:E; try discriminate; injection H as <-; cbn [dir thr data log];
+    (split; [intros k0; unfold named_value; cbn [dir data]; unfold upd_name; cbn [name_eqb]; reflexivity|]);
+    (split; [do 2 eexists; unfold upd_nat; rewrite Nat.eqb_refl; reflexivity|]);
+    (split; [|split; reflexivity]);
+    intros tmp0 [(k0 & v0 & i0 & o0 & H)|[(k0 & v0 & i0 & H)|(k0 & v0 & i0 & H)]]; try discriminate;
+    injection H; intros; subst; unfold upd_name; cbn [name_eqb]; rewrite Nat.eqb_refl; reflexivity.
+Qed.
